@@ -130,8 +130,30 @@ def check(ctx, case):
         ctx.violation('mutates-input', 'kdt_match modified its input arrays', case)
 
 
+def thread_cases(seed):
+    """Matching of equally sized feature sets with different neighbour counts and distance bounds, from different threads at once."""
+    from emd import cycles as C
+    r = np.random.default_rng(seed)
+    nx, ny, nf = int(gens.pick(r, [60, 200])), int(gens.pick(r, [150, 400])), int(r.integers(1, 4))
+    calls = []
+    for k, (K, bound) in enumerate([(15, np.inf), (4, 0.05), (15, 0.3), (8, np.inf)]):
+        x, y = r.standard_normal((nx, nf)), r.standard_normal((ny, nf))
+        calls.append((lambda a, b, kk, bb: (lambda: tuple(np.asarray(v) for v in C.kdt_match(a.copy(), b.copy(), K=kk, distance_upper_bound=bb))))(x, y, K, bound))
+    return calls, {'seed': int(seed), 'nx': nx, 'ny': ny}
+
+
+def thread_check(ctx, seed):
+    from ..monitors import thread_probe
+    from ..harness import quiet
+    calls, tcase = thread_cases(seed)
+    with quiet():
+        return thread_probe(ctx, 'kdt_match (%d x %d candidates)' % (tcase['nx'], tcase['ny']), calls, 40, tcase, interval=1e-6)
+
+
 def run_shard(ctx):
     rng = ctx.rng
+    if ctx.shard % 2 == 1:
+        thread_check(ctx, int(rng.integers(1 << 30)))
     n = NCASES[ctx.tier] // ctx.nshards
     for i in range(n):
         if ctx.out_of_time():
@@ -167,4 +189,9 @@ def finalize(agg, tier):
 
 
 def replay(ctx, case):
+    if case.get('kind') == 'threads':
+        for _ in range(5):
+            if not thread_check(ctx, case['seed']):
+                break
+        return
     check(ctx, case)
